@@ -248,7 +248,7 @@ def main(argv):
     for _, cs in sorted(by_type.items()):
         xs = sorted((c["x"] for c in cs), key=lambda x: ty.canon(ty.norm(x)) if x["k"] != "absent" else "")
         jobs.append((cs[0]["t"], cs[0]["d"], xs))
-    ntypes, per_type = (80, 10) if tier == "quick" else (2500, 20)
+    ntypes, per_type = (80, 10) if tier == "quick" else (1800, 20)
     rjobs = ty.random_cases(rnd, ntypes, per_type)
     rjobs = [(t, d, xs + ([{"k": "absent", "v": 0}] if d["k"] != "none" else [])) for t, d, xs in rjobs]
     results = ty.run_jobs([(t, d, xs, tier == "quick") for t, d, xs in jobs + rjobs], work=_work)
